@@ -93,6 +93,7 @@ class Opts:
         self.var_paths = 0.0        # probability of variable path targets / reads / del on variables
         self.const_bias = 0.0       # bias towards literal assignments (constant flows)
         self.target_bias = 0.0      # bias towards event / metadata reads, writes, del, exists, unnest
+        self.unhandled_p = 0.0      # probability of emitting a (believed) fallible expression unhandled
         for k, v in kw.items():
             setattr(self, k, v)
 
@@ -112,6 +113,7 @@ class Gen:
         self.probe_n = 0
         self.probe_info = {}    # tag -> {"kind": "stmt"|"wrap", ...}
         self.perturbed = set()  # variables written through paths / del / closures / branches
+        self.const_vars = []    # integer variables assigned a non-zero literal at top level
 
     # -- small helpers
     def p(self, x):
@@ -567,6 +569,20 @@ class Gen:
                 name = r.choice(vs)
                 self.perturbed.add(name)
                 return [["call", "del", [[None, ["path", name, [["f", r.choice(["p", "q", "k1"])]]]]], False, None]]
+        if self.o.const_bias and self.const_vars and self.p(self.o.const_bias * 0.35):
+            # an arithmetic expression whose left operand changes the variable that the right operand
+            # reads: the compiler may only use the constant the variable has *after* the left operand ran.
+            # Deliberately unhandled: a correct compiler rejects it as fallible (counted as a rejection).
+            x = r.choice(self.const_vars)
+            lhs = r.choice([
+                ["block", [["assign", ["tvar", x, []], L(0)], L(10)]],
+                ["grp", ["assign", ["tvar", x, []], L(0)]],
+                ["block", [["assign", ["tvar", x, []], L(r.choice([0, 0.0]))], self.lit(INT)]],
+            ])
+            self.perturbed.add(x)
+            name = self.fresh_var()
+            self.vars[name] = FLOAT
+            return [["assign", ["tvar", name, []], ["op", "/", lhs, ["var", x]]]]
         if self.o.const_bias and self.p(self.o.const_bias):
             kind = r.choice([INT, INT, FLOAT, STR, BOOL, OBJ, ARR])
             if kind == INT and self.p(0.4):
@@ -579,7 +595,25 @@ class Gen:
             if name in self.vars and (self.in_closure or self.scope_depth):
                 self.perturbed.add(name)
             self.vars[name] = kind
+            if kind == INT and e[0] == "lit" and e[1] != 0 and not self.in_closure and not self.scope_depth:
+                if name not in self.const_vars:
+                    self.const_vars.append(name)
             return [["assign", ["tvar", name, []], e]]
+        if self.o.unhandled_p and self.p(self.o.unhandled_p):
+            # A call / operation the generator believes fallible, deliberately left unhandled: a
+            # correct compiler rejects the program (counted); if it is accepted, the compiler claims
+            # the expression cannot fail, and a runtime failure is a violation.
+            kind = r.choice([INT, STR, BOOL, ARR, OBJ, FLOAT])
+            vs = self.vars_of("any")
+            if vs and self.p(0.7):
+                v = ["var", r.choice(vs)]
+                assertion = {INT: "int", FLOAT: "float", STR: "string", BOOL: "bool", ARR: "array", OBJ: "object"}
+                e = r.choice([["call", assertion[kind], [[None, v]], False, None],
+                              ["call", r.choice(["upcase", "downcase", "length"]), [[None, v]], False, None],
+                              ["op", "+", v, self.lit(INT)], ["op", "<", v, self.lit(INT)]])
+            else:
+                e = self.fallible(kind, min(d, 1))
+            return [["assign", self.target_for("any"), e]]
         if self.o.target_bias and self.p(self.o.target_bias):
             return self.target_stmt(d)
         c = r.random()
